@@ -39,7 +39,9 @@ THEOREMS = ["consts_documented", "chipinfo_roundtrip", "p2p_roundtrip", "p2p_tab
             "sysinfo_mem", "sysinfo_extent", "dead_chips_complement", "dead_links_complement",
             "build_machine_exact", "reservations_partition", "global_reservation_shared", "iobuf_chain",
             "iobuf_bytes_exact", "sver_both_encodings", "status_fields_partial", "router_counters",
-            "status_block", "processor_status_exact"]
+            "status_block", "processor_status_exact", "p2p_keys_nodup", "get_system_info_exact",
+            "probe_to_machine_exact", "contains_exact", "links_cores_enumerate", "target_lengths_exact",
+            "probe_views_exact"]
 
 RULE = ("cases = machine states: (system) P2P dimensions 1..12 x 1..12 and sparse 255-wide/high tables, listed / "
         "unlisted / unresponsive (silent or error-code) / ghost chips, per-chip core counts, state patterns shared by "
@@ -153,13 +155,53 @@ def derived_json(si):
         ok_shape = ok_shape and c.resource is Cores and c.reservation.step is None
         cons.append({"start": int(c.reservation.start), "stop": int(c.reservation.stop),
                      "chip": None if c.location is None else [int(c.location[0]), int(c.location[1])]})
+    qs = member_queries(si_json(si))
     return {"machine": mj, "constraints": cons, "shape_ok": bool(ok_shape),
+            "member_queries": qs, "member": member_answers(si, qs),
             "dead_chips": sorted([int(x), int(y)] for x, y in si.dead_chips()),
             "dead_links": sorted([int(x), int(y), int(l)] for x, y, l in si.dead_links()),
             "links": sorted([int(x), int(y), int(l)] for x, y, l in si.links()),
             "cores": [[int(x), int(y), int(p), int(s)] for x, y, p, s in si.cores()],
             "target_lengths": sorted([int(x), int(y), int(n)] for (x, y), n in
                                      build_routing_table_target_lengths(si).items())}
+
+
+def member_queries(sj):
+    """deterministic membership queries [kind, x, y, a, b] for a description (kind 0 chip, 1 link a, 2 core a,
+    3 core a in state b): every link, boundary core numbers and present / other states of the first chips, and
+    a 3 x 3 corner of coordinates whether described or not"""
+    qs = []
+    for ch in sj["chips"][:8]:
+        x, y, n, cs = ch["x"], ch["y"], ch["num_cores"], ch["core_states"]
+        qs.append([0, x, y, 0, 0])
+        qs += [[1, x, y, l, 0] for l in range(6)]
+        for p in sorted({0, max(n - 1, 0), n, 17, 18, 19}):
+            qs.append([2, x, y, p, 0])
+            qs += [[3, x, y, p, s] for s in sorted({cs[p] if p < len(cs) else IDLE, IDLE, RUN})]
+    for x in range(3):
+        for y in range(3):
+            qs += [[0, x, y, 0, 0], [1, x, y, 2, 0], [2, x, y, 1, 0], [3, x, y, 0, RUN]]
+    return qs
+
+
+def member_answers(si, qs):
+    from rig.links import Links
+    from rig.machine_control.consts import AppState
+    out = []
+    for k, x, y, a, b in qs:
+        try:
+            if k == 0:
+                r = (x, y) in si
+            elif k == 1:
+                r = (x, y, Links(a)) in si
+            elif k == 2:
+                r = (x, y, a) in si
+            else:
+                r = (x, y, a, AppState(b)) in si
+            out.append(bool(r))
+        except IndexError:
+            out.append("IndexError")
+    return out
 
 
 def membership_ok(si, state_chips):
@@ -542,6 +584,7 @@ def eval_cases(ctx, cases):
 def add_derived_reqs(L, reqs, slots, i, sj, d):
     reqs.append(L("build_machine", **sj)); slots.append((i, "model_machine"))
     reqs.append(L("core_constraints", **sj)); slots.append((i, "model_constraints"))
+    reqs.append(L("contains", sysinfo=sj, queries=d["member_queries"])); slots.append((i, "model_member"))
     reqs.append(L("dead_ok", sysinfo=sj, dead_chips=d["dead_chips"], dead_links=d["dead_links"]))
     slots.append((i, "oracle_dead"))
     reqs.append(L("machine_ok", sysinfo=sj, got=d["machine"])); slots.append((i, "oracle_machine"))
@@ -582,6 +625,7 @@ def judge_derived(ctx, c, w, desc):
     sj = w["impl"]["ok"]["sysinfo"]
     cmp(ctx, "build_machine", d["machine"], sort_machine(w["model_machine"]), desc)
     cmp(ctx, "core_constraints", d["constraints"], w["model_constraints"], desc)
+    cmp(ctx, "contains", d["member"], w["model_member"], desc)
     if not d["shape_ok"]:
         ctx.violation("machine-model-wrong", "resources / constraint objects have an unexpected shape", desc)
     if w["oracle_dead"] is not True:
